@@ -271,6 +271,7 @@ class State:
         self.flags = []         # text repairs the tree already has (probed)
         self.nl = 0             # 1 when `.` already excludes CR (probed)
         self.blocks = []        # names of ublock2urange
+        self.sub = 0            # 1 when the tree translates class subtraction (probed; fixes/F181.diff)
         self.mce = ""           # XSD multi-character escape letters the tree translates in pass 1 (probed; fixes/F182.diff, F183.diff)
 
 
@@ -432,7 +433,7 @@ def attribute(cx, st, failing, stats):
             fid = "F450"
         elif big_quantifier(c.pat) and what == "XSD-valid pattern is rejected":
             fid = "F451"
-        elif "subtraction" in fs:
+        elif "subtraction" in fs and not st.sub:
             fid = "F181"
         elif (fs & {"i", "I", "c", "C"}) - set(st.mce):
             fid = "F182"
@@ -550,14 +551,20 @@ def probe(cx):
         r = r6.get("m" + ch, ["err"])
         if r[0] == "ok" and unhex(r[1]).startswith(b"[") and unhex(r[1]).endswith(b"]"):
             st.mce += ch
+    r7 = cx.run_impl(HARNESS, ["sb %s rewrite - %s" % (COMP, hexs(b"[a-[b]]"))], component=COMP).get("sb", ["err"])
+    st.sub = 1 if (r7[0] == "ok" and unhex(r7[1]) == b"(?:[a](?<![b]))") else 0
+    gs = cx.run_model(["gs %s subtraction" % COMP]).get("gs", ["err"])
+    if gs[:2] != ["ok", str(st.sub)]:
+        cx.fail(COMP, "translator and harness disagree on whether pass 1 translates class subtraction",
+                {"Generated.UBlocks.subtraction": gs, "harness_rewrite_of_[a-[b]]": (unhex(r7[1]).decode("utf-8", "replace") if r7[0] == "ok" else r7)})
     gm = cx.run_model(["gm %s mce" % COMP]).get("gm", ["err"])
     if gm[0] != "ok" or sorted(gm[1] if gm[1] != "-" else "") != sorted(st.mce):
         cx.fail(COMP, "translator and harness disagree on the multi-character escapes pass 1 translates",
                 {"Generated.UBlocks.mceTable": gm, "harness": st.mce})
     info = ri.get("p0", ["err"])
     st.nl = 1 if (info[0] == "ok" and info[2] != "2") else 0
-    cx.notes.append("tree state probed through the harness: repairs present = %s, multi-character escapes translated = %s, newline convention %s, PCRE2 %s"
-                    % (flagstr(st.flags) + ("+nl" if st.nl else ""), st.mce or "-", info[2] if info[0] == "ok" else "?", info[3] if info[0] == "ok" else "?"))
+    cx.notes.append("tree state probed through the harness: repairs present = %s, multi-character escapes translated = %s, class subtraction translated = %s, newline convention %s, PCRE2 %s"
+                    % (flagstr(st.flags) + ("+nl" if st.nl else ""), st.mce or "-", "yes" if st.sub else "no", info[2] if info[0] == "ok" else "?", info[3] if info[0] == "ok" else "?"))
     return st
 
 
@@ -575,6 +582,19 @@ def rewrite_inputs(cx, st):
     for n in range(1, 6):
         for t in itertools.product([b"\\", b"[", b"]", b"i", b"w", b"$"], repeat=n):
             out.append(b"".join(t))
+    # class subtraction (F181: `-[` inside a class): every byte string of length <= 6 over {\ [ ] - a}, and nestings / garbage
+    for n in range(1, 7):
+        for t in itertools.product([b"\\", b"[", b"]", b"-", b"a"], repeat=n):
+            out.append(b"".join(t))
+    SUBP = [b"[a-[b]]", b"[^a-z-[aeiou]]", b"[a-[b-[c]]]", b"[a-[b-[c-[d]]]]", b"-[", b"]]", b"[a-", b"[\\w-[\\d]]", b"+", b"{2}", b"x", b"\\-[", b"[\\]-[a]]", b"[a-[\\]]]",
+            b"(", b")", b"|", b"^", b"$", b"[a", b"-", b"\\p{IsGreek}", b"[\\p{IsGreek}-[\\p{IsBasicLatin}]]"]
+    for a in SUBP:
+        for b in SUBP:
+            out.append(a + b)
+    for _ in range(cx.n(1500, 20000)):
+        out.append(b"".join(rng.choice(SUBP) for _ in range(rng.randrange(2, 6))))
+    out.append(b"[" * 70 + b"a-[b" + b"]" * 72)
+    out.append(b"[a" + b"-[a" * 70 + b"]" * 71)
     names = st.blocks or ["BasicLatin", "Greek", "GreekExtended", "Specials"]
     pick = ["BasicLatin", "Latin-1Supplement", "Greek", "GreekExtended", "Cyrillic", "CJKCompatibility", "CJKCompatibilityForms", "Specials", names[-2], names[len(names) // 2]]
     P = [("\\p{Is%s}" % n).encode() for n in pick]
